@@ -30,6 +30,25 @@ pub struct Plan {
     pub order: Option<Vec<usize>>,
     /// CRLF line ends
     pub crlf: bool,
+    /// partition of the top-level items into files + import styles (None = single file)
+    #[serde(default)]
+    pub modules: Option<ModulePlan>,
+}
+
+/// How a program is split into files and how files refer to each other.
+#[derive(Clone, Debug, PartialEq, Serialize, Deserialize)]
+pub struct ModulePlan {
+    /// module paths relative to the project root, without `.sy`; index 0 is the main file ("main");
+    /// a path ending in "/exports" is imported as its folder (`use dir/`)
+    pub files: Vec<String>,
+    /// file index of every top-level item (blobs, then enums, then globals in program order)
+    pub file_of: Vec<usize>,
+    /// style[from][to]: 0 `use f` + `f.x`; 1 `use f as a` + `a.x`; 2 `from f use x`; 3 `from f use x as y`
+    pub style: Vec<Vec<u8>>,
+    /// write the import path root-relative (`/dir/f`) even where a relative path would do
+    pub rooted: Vec<Vec<bool>>,
+    /// `from f use (a,\n b)` parenthesised multi-line import lists
+    pub paren_lists: bool,
 }
 
 impl Default for Plan {
@@ -48,6 +67,7 @@ impl Default for Plan {
             names: None,
             order: None,
             crlf: false,
+            modules: None,
         }
     }
 }
@@ -103,6 +123,10 @@ pub struct Printer<'a> {
     unreachable_lines: HashMap<u32, usize>,
     sites: SiteCounts,
     annot_taken: Vec<bool>,
+    /// the file being printed (multi-file rendering)
+    file: usize,
+    /// names needed from other files: to_file -> set of original names
+    needed: std::collections::BTreeMap<usize, std::collections::BTreeSet<String>>,
 }
 
 fn take(c: &Choices, i: &mut usize) -> u8 {
@@ -186,10 +210,83 @@ impl<'a> Printer<'a> {
             unreachable_lines: HashMap::new(),
             sites: SiteCounts::default(),
             annot_taken: Vec::new(),
+            file: 0,
+            needed: std::collections::BTreeMap::new(),
         }
     }
 
-    fn name(&self, v: VarId) -> String {
+    /// index of a global in the top-level item list
+    fn global_item(&self, v: VarId) -> Option<usize> {
+        self.p.globals.iter().position(|g| g.var == v).map(|gi| self.p.blobs.len() + self.p.enums.len() + gi)
+    }
+
+    /// how a name living in top-level item `item` is written from the current file
+    fn qualify(&mut self, item: usize, name: String) -> String {
+        let m = match &self.plan.modules {
+            Some(m) => m,
+            None => return name,
+        };
+        let to = *m.file_of.get(item).unwrap_or(&0);
+        if to == self.file {
+            return name;
+        }
+        let style = m.style.get(self.file).and_then(|r| r.get(to)).copied().unwrap_or(0) % 4;
+        self.needed.entry(to).or_default().insert(name.clone());
+        match style {
+            0 => {
+                let rooted = m.rooted.get(self.file).and_then(|r| r.get(to)).copied().unwrap_or(false);
+                format!("{}.{}", module_ns(&import_path(&m.files[self.file], &m.files[to], rooted)), name)
+            }
+            1 => format!("ns{}.{}", to, name),
+            2 => name,
+            _ => {
+                // aliases keep the case of the first letter (types/variants are capitalised)
+                format!("{}_m{}", name, to)
+            }
+        }
+    }
+
+    fn blob_name(&mut self, b: usize) -> String {
+        let n = self.p.blobs[b].name.clone();
+        self.qualify(b, n)
+    }
+    fn enum_name(&mut self, e: usize) -> String {
+        let n = self.p.enums[e].name.clone();
+        self.qualify(self.p.blobs.len() + e, n)
+    }
+
+    pub fn ty_text(&mut self, t: &Ty) -> String {
+        if self.plan.modules.is_none() {
+            return type_text(self.p, t);
+        }
+        match t {
+            Ty::Blob(b) => self.blob_name(*b),
+            Ty::Enum(e) => self.enum_name(*e),
+            Ty::Tuple(ts) => {
+                let parts: Vec<String> = ts.iter().map(|t| self.ty_text(t)).collect();
+                if parts.len() == 1 {
+                    format!("({},)", parts[0])
+                } else {
+                    format!("({})", parts.join(", "))
+                }
+            }
+            Ty::List(t) => format!("[{}]", self.ty_text(t)),
+            Ty::Maybe(t) => format!("Maybe({})", self.ty_text(t)),
+            Ty::Fn(ps, r, pure) => {
+                let parts: Vec<String> = ps.iter().map(|t| if t.is_fn() { format!("({})", self.ty_text(t)) } else { self.ty_text(t) }).collect();
+                let kw = if *pure { "pu" } else { "fn" };
+                let ret = if r.is_fn() { format!("({})", self.ty_text(r)) } else { self.ty_text(r) };
+                if parts.is_empty() {
+                    format!("{} -> {}", kw, ret)
+                } else {
+                    format!("{} {} -> {}", kw, parts.join(", "), ret)
+                }
+            }
+            other => type_text(self.p, other),
+        }
+    }
+
+    fn plain_name(&self, v: VarId) -> String {
         if self.p.var(v).kind == VarKind::SelfVar {
             return "self".to_string();
         }
@@ -200,10 +297,17 @@ impl<'a> Printer<'a> {
                 }
             }
         }
-        if self.p.var(v).kind == VarKind::SelfVar {
-            return "self".to_string();
-        }
         self.p.var(v).name.clone()
+    }
+
+    fn name(&mut self, v: VarId) -> String {
+        let n = self.plain_name(v);
+        if self.plan.modules.is_some() && self.p.var(v).kind == VarKind::Global {
+            if let Some(item) = self.global_item(v) {
+                return self.qualify(item, n);
+            }
+        }
+        n
     }
 
     fn nl(&mut self) {
@@ -462,7 +566,7 @@ impl<'a> Printer<'a> {
             EKind::Std(f, args) => self.call_text(Self::std_name(*f).to_string(), true, args, tail),
             EKind::Lambda(def) => self.fn_text(def, None),
             EKind::BlobNew { blob, fields, .. } => {
-                let mut s = format!("{} {{", self.p.blobs[*blob].name);
+                let mut s = format!("{} {{", self.blob_name(*blob));
                 for (i, (n, fx)) in fields.iter().enumerate() {
                     if i > 0 {
                         let sp = self.sep();
@@ -500,7 +604,7 @@ impl<'a> Printer<'a> {
             }
             EKind::List(xs) => format!("[{}]", self.args(xs)),
             EKind::Variant(en, name, payload) => {
-                let base = format!("{}.{}", self.p.enums[*en].name, name);
+                let base = format!("{}.{}", self.enum_name(*en), name);
                 match payload {
                     Some(px) => format!("{} {}", base, self.operand(px)),
                     None => base,
@@ -614,7 +718,7 @@ impl<'a> Printer<'a> {
             // function-typed parameters must always be annotated (an unknown type cannot be called)
             let ann = if ty.is_fn() { true } else { self.want_annot(1) };
             if ann {
-                let tt = if ty.is_fn() { format!("({})", type_text(self.p, &ty)) } else { type_text(self.p, &ty) };
+                let tt = if ty.is_fn() { format!("({})", self.ty_text(&ty)) } else { self.ty_text(&ty) };
                 s.push_str(&format!("{}: {}", self.name(*pv), tt));
             } else {
                 s.push_str(&self.name(*pv));
@@ -625,9 +729,9 @@ impl<'a> Printer<'a> {
             let ann = self.want_annot(2);
             if ann {
                 let rt = if def.ret.is_fn() {
-                    format!("({})", type_text(self.p, &def.ret))
+                    format!("({})", self.ty_text(&def.ret))
                 } else {
-                    type_text(self.p, &def.ret)
+                    self.ty_text(&def.ret)
                 };
                 s.push_str(&format!(" -> {} do", rt));
             } else {
@@ -662,7 +766,8 @@ impl<'a> Printer<'a> {
         let ann = if is_fn || value.ty.is_fn() { false } else { self.want_annot(0) };
         let v = self.expr_t(value, true);
         if ann {
-            let tt = type_text(self.p, &self.p.var(var).ty);
+            let vt = self.p.var(var).ty.clone();
+            let tt = self.ty_text(&vt);
             format!("{}: {} {} {}", name, tt, if mutable { "=" } else { ":" }, v)
         } else {
             format!("{} {} {}", name, if mutable { ":=" } else { "::" }, v)
@@ -749,7 +854,7 @@ impl<'a> Printer<'a> {
             } else {
                 s.push(' ');
             }
-            let tt = type_text(self.p, &f.ty);
+            let tt = self.ty_text(&f.ty);
             s.push_str(&format!("{}: {}", f.name, tt));
         }
         s.push_str(" }");
@@ -761,7 +866,7 @@ impl<'a> Printer<'a> {
         self.depth += 1;
         for v in &e.variants {
             let t = match &v.payload {
-                Some(t) => format!("{} {},", v.name, type_text(self.p, t)),
+                Some(t) => format!("{} {},", v.name, self.ty_text(t)),
                 None => format!("{},", v.name),
             };
             let i = self.ind();
@@ -773,53 +878,51 @@ impl<'a> Printer<'a> {
         self.nl();
     }
 
-    pub fn program(mut self) -> Printed {
-        #[derive(Clone, Copy)]
-        enum Item {
-            Blob(usize),
-            Enum(usize),
-            Global(usize),
-        }
-        let mut items: Vec<Item> = Vec::new();
-        for i in 0..self.p.blobs.len() {
-            items.push(Item::Blob(i));
-        }
-        for i in 0..self.p.enums.len() {
-            items.push(Item::Enum(i));
-        }
-        for i in 0..self.p.globals.len() {
-            items.push(Item::Global(i));
-        }
+    fn ordered_items(&self) -> Vec<usize> {
+        let n = self.p.blobs.len() + self.p.enums.len() + self.p.globals.len();
+        let mut items: Vec<usize> = (0..n).collect();
         if let Some(order) = &self.plan.order {
-            let mut seen = vec![false; items.len()];
+            let mut seen = vec![false; n];
             let mut out = Vec::new();
             for &i in order {
-                if i < items.len() && !seen[i] {
+                if i < n && !seen[i] {
                     seen[i] = true;
-                    out.push(items[i]);
+                    out.push(i);
                 }
             }
-            for (i, it) in items.iter().enumerate() {
+            for i in 0..n {
                 if !seen[i] {
-                    out.push(*it);
+                    out.push(i);
                 }
             }
             items = out;
         }
+        items
+    }
+
+    fn render_items(&mut self, items: &[usize]) -> Vec<(usize, usize)> {
         let p = self.p;
+        let nb = p.blobs.len();
+        let ne = p.enums.len();
         let mut item_lines = Vec::new();
-        for it in items {
+        for &it in items {
             let start = self.line;
-            match it {
-                Item::Blob(i) => self.blob_decl(&p.blobs[i]),
-                Item::Enum(i) => self.enum_decl(&p.enums[i]),
-                Item::Global(i) => {
-                    let g = &p.globals[i];
-                    self.emit_with(|pr| pr.def_text(g.var, g.mutable, &g.value));
-                }
+            if it < nb {
+                self.blob_decl(&p.blobs[it]);
+            } else if it < nb + ne {
+                self.enum_decl(&p.enums[it - nb]);
+            } else {
+                let g = &p.globals[it - nb - ne];
+                self.emit_with(|pr| pr.def_text(g.var, g.mutable, &g.value));
             }
             item_lines.push((start, self.line - 1));
         }
+        item_lines
+    }
+
+    pub fn program(mut self) -> Printed {
+        let items = self.ordered_items();
+        let item_lines = self.render_items(&items);
         Printed {
             text: self.out,
             unreachable_lines: self.unreachable_lines,
@@ -828,6 +931,116 @@ impl<'a> Printer<'a> {
             annot_taken: self.annot_taken,
         }
     }
+}
+
+/// namespace name introduced by `use <path>`
+pub fn module_ns(import_path: &str) -> String {
+    import_path.trim_matches('/').rsplit('/').next().unwrap_or("").to_string()
+}
+
+/// the path written after `use` / `from` in module `from` to reach module `to` (both root-relative,
+/// without `.sy`; `x/exports` is the folder module `x/`)
+pub fn import_path(from: &str, to: &str, rooted: bool) -> String {
+    let from_dir = match from.rfind('/') {
+        Some(i) => &from[..i],
+        None => "",
+    };
+    let (to_shown, is_folder) = match to.strip_suffix("/exports") {
+        Some(d) => (d.to_string(), true),
+        None => (to.to_string(), false),
+    };
+    let rel: Option<String> = if from_dir.is_empty() {
+        Some(to_shown.clone())
+    } else if let Some(rest) = to_shown.strip_prefix(&format!("{}/", from_dir)) {
+        Some(rest.to_string())
+    } else {
+        None
+    };
+    let mut path = match (rel, rooted) {
+        (Some(r), false) => r,
+        _ => format!("/{}", to_shown),
+    };
+    if is_folder {
+        path.push('/');
+    }
+    path
+}
+
+pub struct PrintedFiles {
+    /// "/p/<module>.sy" -> text
+    pub files: std::collections::BTreeMap<String, String>,
+    pub main: String,
+    /// `<!>` uid -> line (in whichever file it is)
+    pub unreachable_lines: HashMap<u32, usize>,
+    pub import_styles_used: std::collections::BTreeSet<u8>,
+    pub cross_file_refs: usize,
+}
+
+/// Multi-file rendering according to `plan.modules`.
+pub fn print_files(p: &Program, plan: &Plan) -> PrintedFiles {
+    let m = plan.modules.as_ref().expect("print_files needs a module plan");
+    let mut files = std::collections::BTreeMap::new();
+    let mut unreachable_lines = HashMap::new();
+    let mut styles = std::collections::BTreeSet::new();
+    let mut cross = 0;
+    for f in 0..m.files.len() {
+        let items: Vec<usize> = {
+            let pr = Printer::new(p, plan);
+            pr.ordered_items().into_iter().filter(|i| *m.file_of.get(*i).unwrap_or(&0) == f).collect()
+        };
+        // pass 1: which names are needed from which file
+        let mut pr = Printer::new(p, plan);
+        pr.file = f;
+        pr.render_items(&items);
+        let needed = pr.needed.clone();
+        let mut header = String::new();
+        for (to, names) in &needed {
+            cross += names.len();
+            let style = m.style.get(f).and_then(|r| r.get(*to)).copied().unwrap_or(0) % 4;
+            styles.insert(style);
+            let rooted = m.rooted.get(f).and_then(|r| r.get(*to)).copied().unwrap_or(false);
+            let path = import_path(&m.files[f], &m.files[*to], rooted);
+            match style {
+                0 => header.push_str(&format!("use {}\n", path)),
+                1 => header.push_str(&format!("use {} as ns{}\n", path, to)),
+                2 => {
+                    let list: Vec<String> = names.iter().cloned().collect();
+                    if m.paren_lists && list.len() > 1 {
+                        header.push_str(&format!("from {} use (\n    {},\n)\n", path, list.join(",\n    ")));
+                    } else {
+                        header.push_str(&format!("from {} use {}\n", path, list.join(", ")));
+                    }
+                }
+                _ => {
+                    let list: Vec<String> = names.iter().map(|n| format!("{} as {}_m{}", n, n, to)).collect();
+                    if m.paren_lists && list.len() > 1 {
+                        header.push_str(&format!("from {} use (\n    {},\n)\n", path, list.join(",\n    ")));
+                    } else {
+                        header.push_str(&format!("from {} use {}\n", path, list.join(", ")));
+                    }
+                }
+            }
+        }
+        if f == 0 {
+            // every non-empty module is loaded: main imports the ones nothing else made it need
+            for to in 1..m.files.len() {
+                if !needed.contains_key(&to) && m.file_of.iter().any(|x| *x == to) {
+                    header.push_str(&format!("use {}\n", import_path(&m.files[0], &m.files[to], false)));
+                }
+            }
+        }
+        let header_lines = header.matches('\n').count();
+        // pass 2: real rendering with the right line numbers
+        let mut pr = Printer::new(p, plan);
+        pr.file = f;
+        pr.line = header_lines + 1;
+        pr.render_items(&items);
+        for (k, v) in pr.unreachable_lines.iter() {
+            unreachable_lines.insert(*k, *v);
+        }
+        files.insert(format!("/p/{}.sy", m.files[f]), format!("{}{}", header, pr.out));
+    }
+    PrintedFiles { files, main: format!("/p/{}.sy", m.files[0]), unreachable_lines, import_styles_used: styles, cross_file_refs: cross }
 }
 
 pub fn print_program(p: &Program, plan: &Plan) -> Printed {
